@@ -1,6 +1,6 @@
 (* C09 - no peer can crash, hang or fool the auditor. *)
 From VModel Require Import AuditSM.
-From VProofs Require Import AuditProofs.
+From VProofs Require Import AuditProofs SegProofs.
 Open Scope string_scope. Open Scope list_scope. Open Scope Z_scope.
 
 (* the packet reader: for EVERY byte sequence, segmentation and close/stall point, no exception escapes *)
@@ -34,3 +34,12 @@ Proof. exact bad_handshake_exit1. Qed.
    and it is structurally recursive on the peer's finite script (one recv per chunk, then close or timeout) *)
 Theorem c09_ensure_read_enough : forall s size s', ensure_read s size = (s', None) -> size <= zlen (s_buf s').
 Proof. exact ensure_read_enough. Qed.
+
+(* the reader's result depends only on the byte stream, not on how it is cut into TCP segments (incl. 1-byte
+   segmentation), for every buffer content, every segmentation into non-empty chunks, close or stall at the end *)
+Theorem c09_read_packet2_segmentation : forall buf cs e, nonempty_chunks cs ->
+  snd (read_packet2 {| s_buf := buf; s_chunks := cs; s_end := e |}) = snd (read_packet2 {| s_buf := buf ++ List.concat cs; s_chunks := []; s_end := e |}).
+Proof. exact read_packet2_segmentation. Qed.
+Theorem c09_read_packet1_segmentation : forall buf cs e, nonempty_chunks cs ->
+  snd (read_packet1 {| s_buf := buf; s_chunks := cs; s_end := e |}) = snd (read_packet1 {| s_buf := buf ++ List.concat cs; s_chunks := []; s_end := e |}).
+Proof. exact read_packet1_segmentation. Qed.
